@@ -209,7 +209,11 @@ def p3_parallel_fd(ctx, mode="proc"):
     ctx.event("grad", canon(par))
     if order and order != sorted(order):
         ctx.probe("completion_order_differs_from_submission")
-    if array(par).shape != array(ref).shape or not array_equal(array(par), array(ref)):
+    # same formula, but a pickled (contiguous) input and a strided view may differ in the last bit of
+    # f, which the division by the step amplifies to ~1e-10: equality up to 1e-7, not bit-for-bit
+    from numpy import allclose
+
+    if array(par).shape != array(ref).shape or not allclose(array(par), array(ref), rtol=1e-7, atol=1e-7):
         ctx.violate("C13.fd_equivalence", sig, f"parallel approximation {par} != serial {ref}; completion order {order}; cfg={cfg}")
     ctx.case((sig, dim, n_out, n_workers, tuple(order), ctx.digest()), nontrivial=dim >= 2)
     ctx.sample = {"cfg": cfg, "completion_order": order}
